@@ -97,8 +97,15 @@ def run_with_alarm(seconds, fn, *a, **kw):
     """Call fn under a SIGALRM watchdog (main thread of a worker process only)."""
     import signal
 
+    # on an overloaded machine (several checks at once) everything is slower by about
+    # load / cores: the watchdog budget grows with it so that slowness is not reported as a hang
+    try:
+        seconds = seconds * max(1.0, os.getloadavg()[0] / (os.cpu_count() or 1))
+    except OSError:
+        pass
+
     def handler(signum, frame):
-        raise WatchdogTimeout(f"no return within {seconds} s")
+        raise WatchdogTimeout(f"no return within {seconds:.0f} s")
 
     old = signal.signal(signal.SIGALRM, handler)
     signal.setitimer(signal.ITIMER_REAL, seconds)
@@ -121,7 +128,7 @@ def pmap(modname: str, funcname: str, shards: list, workers: int | None = None):
         from concurrent.futures import ProcessPoolExecutor
 
         ctx = mp.get_context("fork")
-        limit = float(os.environ.get("VERIF_SHARD_TIMEOUT", "3000"))
+        limit = float(os.environ.get("VERIF_SHARD_TIMEOUT", "7200"))
         pool = ProcessPoolExecutor(min(workers, len(shards)), mp_context=ctx)
         try:
             results = list(pool.map(_shard_entry, jobs, chunksize=1, timeout=limit))
